@@ -193,7 +193,7 @@ pub fn run(ctx: &mut Ctx) {
         }
     }
     ctx.stratum("T-triples", false);
-    let n = ctx.tier.pick(1_000_000u64, 100_000_000u64);
+    let n = ctx.tier.n(1_000_000, 100_000_000);
     let blocks = n / 1000;
     for blk in 0..blocks {
         if !ctx.take() {
@@ -215,7 +215,7 @@ pub fn run(ctx: &mut Ctx) {
         }
     }
     ctx.stratum("S-sorting-and-collections", false);
-    let n = ctx.tier.pick(3_000u64, 300_000u64);
+    let n = ctx.tier.n(3_000, 300_000);
     for i in 0..n {
         if !ctx.take() {
             continue;
@@ -262,7 +262,7 @@ pub fn run(ctx: &mut Ctx) {
         }
     }
     ctx.stratum("R-random-pairs", false);
-    let n = ctx.tier.pick(300_000u64, 30_000_000u64);
+    let n = ctx.tier.n(300_000, 30_000_000);
     for i in 0..n {
         if !ctx.take() {
             continue;
